@@ -35,3 +35,11 @@ FUNCTIONS = FUNCTIONS + [q for q in STRUCT if q not in FUNCTIONS]
 FUNCTIONS = FUNCTIONS + [M + 'match_contains']
 
 FUNCTIONS = FUNCTIONS + [q for q in KIDS if q not in FUNCTIONS]
+
+
+def _templates(ctx):
+    from pyvc import templates
+    return templates.template_obligations(ctx)
+
+
+STRUCTURAL = (globals().get('STRUCTURAL') or []) + [_templates]
